@@ -9,6 +9,8 @@ use unimock::*;
 #[derive(Clone, Debug)]
 pub enum Base {
     Call(usize, u32, u8),
+    /// a call observed together with the matcher functions it consulted
+    CallM(usize, u32, u8),
     Clone(usize),
     /// `slots[i].clone_from(&slots[j])`
     CloneFrom(usize, usize),
@@ -228,7 +230,7 @@ pub fn run_base(slots: &mut Vec<Option<Unimock>>, unwinding: bool, base: &Base) 
     // STARTS with the teardown/drop (drop, verify, clone_from, refused no_verify_in_drop), not by one that runs other code first
     let blocked = match *base {
         Base::CallOwn(i, _, _) | Base::Report(i) => has_callers(i),
-        Base::Call(i, m, _) => m >= 10 && has_callers(i),
+        Base::Call(i, m, _) | Base::CallM(i, m, _) => m >= 10 && has_callers(i),
         _ => false,
     };
     if blocked {
@@ -328,6 +330,19 @@ fn run_base_inner(slots: &mut Vec<Option<Unimock>>, unwinding: bool, base: &Base
                 return res.expect("cleanup ran");
             }
             call_any(&mut slots[i], m, a)
+        }
+        Base::CallM(i, m, a) => {
+            if !alive(slots, i) {
+                return "invalid".into();
+            }
+            let _ = trace_take();
+            let r = call_any(&mut slots[i], m, a);
+            let trace = trace_take();
+            if r == "P:user:matcher" {
+                return r;
+            }
+            let items: Vec<String> = trace.iter().map(|(d, diag)| format!("{d}{}", if *diag { "d" } else { "" })).collect();
+            format!("{r} M[{}]", items.join(","))
         }
         Base::Clone(i) => {
             if !alive(slots, i) {
@@ -447,6 +462,7 @@ pub fn parse_event(tok: &str) -> Event {
     let ix = |k: usize| parts[k].parse::<usize>().expect("event number");
     let base = match parts[0] {
         "call" => Base::Call(ix(1), ix(2) as u32, ix(3) as u8),
+        "callm" => Base::CallM(ix(1), ix(2) as u32, ix(3) as u8),
         "clone" => Base::Clone(ix(1)),
         "clonefrom" => Base::CloneFrom(ix(1), ix(2)),
         "drop" => Base::Drop(ix(1)),
